@@ -247,4 +247,259 @@ theorem unit_values_sliced (sz : Nat → Nat) (rate : List Nat) (k : Nat) (V : N
   have := (List.of_mem_zip hp).1
   simpa using this
 
+/-! ### ordering the remaining dimensions by their change counts -/
+
+/-- number of changes between consecutive entries (no wrap-around): the count `order_fast_to_slow` uses -/
+def noWrapCount (col : List Nat) : Nat :=
+  ((List.range (col.length - 1)).filter (fun i => col.getD (i + 1) 0 != col.getD i 0)).length
+
+theorem noWrap_map (f : Nat → Nat) (l : List Nat) (h : StrictOn f l) : noWrapCount (l.map f) = noWrapCount l := by
+  unfold noWrapCount
+  rw [List.length_map]
+  congr 1
+  apply List.filter_congr
+  intro i hi
+  have hi' := List.mem_range.mp hi
+  rw [getD_map_of_lt f l (i + 1) (by omega), getD_map_of_lt f l i (by omega)]
+  by_cases e : l.getD (i + 1) 0 = l.getD i 0
+  · rw [e]; simp
+  · have : f (l.getD (i + 1) 0) ≠ f (l.getD i 0) :=
+      fun e' => e (h.inj (getD_mem_of_lt l (i + 1) (by omega)) (getD_mem_of_lt l i (by omega)) e')
+    rw [bne_iff_ne.mpr this, bne_iff_ne.mpr e]
+
+/-- the wrap-around count is the plain count plus one if the row does not end where it starts -/
+theorem wrap_eq_noWrap (l : List Nat) (hl : l ≠ []) :
+    changeCountList l = noWrapCount l + (if l.getD 0 0 != l.getD (l.length - 1) 0 then 1 else 0) := by
+  unfold changeCountList noWrapCount
+  obtain ⟨n, hn⟩ : ∃ n, l.length = n + 1 := ⟨l.length - 1, by
+    have : 0 < l.length := List.length_pos_iff.mpr hl; omega⟩
+  rw [hn, List.range_succ_eq_map, List.filter_cons, Nat.add_sub_cancel]
+  simp only [if_true]
+  have htail : ((List.range n).map Nat.succ).filter (fun i => l.getD i 0 != l.getD (if i = 0 then n else i - 1) 0) =
+      ((List.range n).filter (fun i => l.getD (i + 1) 0 != l.getD i 0)).map Nat.succ := by
+    rw [List.filter_map]
+    congr 1
+  rw [htail]
+  by_cases h0 : (l.getD 0 0 != l.getD n 0) = true
+  · simp only [h0, if_true, List.length_cons, List.length_map]
+  · have h0' : (l.getD 0 0 != l.getD n 0) = false := by simpa using h0
+    simp only [h0', Bool.false_eq_true, if_false, List.length_map, Nat.add_zero]
+
+/-- the index row of a multi-valued dimension starts at 0 and ends at its last index: its plain change
+    count is its wrap-around count minus one -/
+theorem noWrap_gridRow (f : Nat → Nat) (rate : List Nat) (d : Nat) (hnd : rate.Nodup) (hd : d ∈ rate)
+    (hpos : ∀ e ∈ rate, 1 ≤ f e) (hbig : 1 < f d) :
+    countOf f rate d = noWrapCount (gridRow f rate d) + 1 := by
+  obtain ⟨pre, post, e, hpre⟩ := split_of_mem rate d hd
+  have hS : 0 < (pre.map f).prod := prod_pos f pre (fun x hx => hpos x (e ▸ List.mem_append_left _ hx))
+  have hH : 0 < (post.map f).prod :=
+    prod_pos f post (fun x hx => hpos x (e ▸ List.mem_append_right _ (List.mem_cons_of_mem _ hx)))
+  have hN : npoints f rate = (pre.map f).prod * f d * (post.map f).prod := by rw [e]; exact npoints_split f pre post d
+  have hNpos : 0 < npoints f rate := by rw [hN]; exact Nat.mul_pos (Nat.mul_pos hS (by omega)) hH
+  have hne : gridRow f rate d ≠ [] := by
+    intro h0
+    have := congrArg List.length h0
+    simp [gridRow] at this; omega
+  have hlen : (gridRow f rate d).length = npoints f rate := by simp [gridRow]
+  show changeCountList (gridRow f rate d) = _
+  rw [wrap_eq_noWrap _ hne, hlen]
+  have hfirst : (gridRow f rate d).getD 0 0 = 0 := by
+    simp [gridRow, List.getD_eq_getElem?_getD, List.getElem?_range hNpos, gridIdx]
+  have hlast : (gridRow f rate d).getD (npoints f rate - 1) 0 = f d - 1 := by
+    have hlt : npoints f rate - 1 < npoints f rate := by omega
+    simp only [gridRow, List.getD_eq_getElem?_getD, List.getElem?_map, List.getElem?_range hlt, Option.map_some,
+      Option.getD_some, gridIdx]
+    rw [e, stride_split f pre post d hpre, ← e, hN]
+    -- (S * s * H - 1) / S % s = s - 1
+    have e1 : (pre.map f).prod * f d * (post.map f).prod - 1 =
+        (pre.map f).prod * (f d * (post.map f).prod - 1) + ((pre.map f).prod - 1) := by
+      have : 0 < f d * (post.map f).prod := Nat.mul_pos (by omega) hH
+      rw [Nat.mul_assoc, Nat.mul_sub, Nat.mul_one]
+      have h2 : (pre.map f).prod ≤ (pre.map f).prod * (f d * (post.map f).prod) := Nat.le_mul_of_pos_right _ this
+      omega
+    rw [e1, Nat.mul_add_div hS, Nat.div_eq_of_lt (by omega), Nat.add_zero]
+    have e2 : f d * (post.map f).prod - 1 = f d * ((post.map f).prod - 1) + (f d - 1) := by
+      rw [Nat.mul_sub, Nat.mul_one]
+      have h2 : f d ≤ f d * (post.map f).prod := Nat.le_mul_of_pos_right _ hH
+      omega
+    rw [e2, Nat.mul_add_mod, Nat.mod_eq_of_lt (by omega)]
+  rw [hfirst, hlast]
+  have : (0 != f d - 1) = true := by
+    rw [bne_iff_ne]; omega
+  simp [this]
+
+/-- **Fastest first.**  Ranking the multi-valued dimensions by their plain change counts (largest first)
+    lists them exactly in the rate order of the grid - whatever the storage order of the columns. -/
+theorem ranked_eq (f : Nat → Nat) (rate : List Nat) (k : Nat) (hperm : rate.Perm (List.range k))
+    (hpos : ∀ e ∈ rate, 1 ≤ f e) (cnt : Nat → Nat)
+    (hcnt : ∀ d ∈ rate, 1 < f d → countOf f rate d = cnt d + 1) :
+    (argsortRev (((List.range k).filter (fun d => decide (f d ≥ 2))).map cnt)).map
+        (fun i => ((List.range k).filter (fun d => decide (f d ≥ 2))).getD i 0) =
+      rate.filter (fun d => decide (f d ≥ 2)) := by
+  have hnd : rate.Nodup := hperm.nodup_iff.mpr List.nodup_range
+  generalize hkept : (List.range k).filter (fun d => decide (f d ≥ 2)) = kept
+  have hkperm : kept.Perm (rate.filter (fun d => decide (f d ≥ 2))) := by
+    rw [← hkept]; exact (hperm.symm.filter _)
+  have hstrict0 := Grid.counts_strict f rate hnd hpos
+  -- strictly decreasing counts along the rate order of the kept dimensions
+  have hstrict : (rate.filter (fun d => decide (f d ≥ 2))).Pairwise (fun a b => cnt b < cnt a) := by
+    have hf := hstrict0.filter (fun d => decide (f d ≥ 2))
+    apply List.Pairwise.imp_of_mem _ hf
+    intro a b ha hb hab
+    have ha' := List.mem_filter.mp ha
+    have hb' := List.mem_filter.mp hb
+    have h1 : 1 < f a := by have := ha'.2; simp at this; omega
+    have h2 : 1 < f b := by have := hb'.2; simp at this; omega
+    have := hab h1 h2
+    rw [hcnt a ha'.1 h1, hcnt b hb'.1 h2] at this
+    omega
+  -- the ranked list: a permutation of kept, sorted by non-increasing count
+  have hlenc : (kept.map cnt).length = kept.length := by simp
+  have hp1 : ((argsortRev (kept.map cnt)).map (fun i => kept.getD i 0)).Perm kept := by
+    have := (argsortRev_perm (kept.map cnt)).map (fun i => kept.getD i 0)
+    rw [hlenc] at this
+    have e : (List.range kept.length).map (fun i => kept.getD i 0) = kept := by
+      apply List.ext_getElem
+      · simp
+      · intro i h1 h2; simp [List.getD_eq_getElem?_getD, List.getElem?_eq_getElem h2]
+    rw [e] at this; exact this
+  have hsorted : ((argsortRev (kept.map cnt)).map (fun i => kept.getD i 0)).Pairwise (fun a b => cnt b ≤ cnt a) := by
+    rw [List.pairwise_map]
+    have hs := argsortRev_sorted (kept.map cnt)
+    apply List.Pairwise.imp_of_mem _ hs
+    intro i j hi hj hij
+    have hi' : i < kept.length := by
+      have := (argsortRev_perm (kept.map cnt)).subset hi; rw [hlenc] at this; exact List.mem_range.mp this
+    have hj' : j < kept.length := by
+      have := (argsortRev_perm (kept.map cnt)).subset hj; rw [hlenc] at this; exact List.mem_range.mp this
+    have gi : (kept.map cnt).getD i 0 = cnt (kept.getD i 0) := by
+      simp [List.getD_eq_getElem?_getD, List.getElem?_eq_getElem hi']
+    have gj : (kept.map cnt).getD j 0 = cnt (kept.getD j 0) := by
+      simp [List.getD_eq_getElem?_getD, List.getElem?_eq_getElem hj']
+    rw [gi, gj] at hij; exact hij
+  apply List.Perm.eq_of_pairwise (le := fun a b => cnt b ≤ cnt a)
+  · intro a b ha hb h1 h2
+    -- a, b are kept dimensions with equal counts: strictness forces a = b
+    have ha' : a ∈ rate.filter (fun d => decide (f d ≥ 2)) := (hp1.trans hkperm).subset ha
+    have hb' : b ∈ rate.filter (fun d => decide (f d ≥ 2)) := hb
+    apply Classical.byContradiction
+    intro hne
+    have heq : cnt a = cnt b := by omega
+    by_cases hpre : a ∈ (rate.filter (fun d => decide (f d ≥ 2))).takeWhile (fun e => e != b)
+    · have := before_rel _ b a hstrict hb' hpre
+      omega
+    · have := after_rel _ b a hstrict hb' ha' hne hpre
+      omega
+  · exact hsorted
+  · apply List.Pairwise.imp _ hstrict
+    intro a b h; exact Nat.le_of_lt h
+  · exact hp1.trans hkperm
+
+theorem lookup_zip_nodup {β : Type} : ∀ (names : List String) (vals : List β) (d : Nat) (h1 : d < names.length) (h2 : d < vals.length),
+    names.Nodup → (names.zip vals).lookup names[d] = some vals[d]
+  | n :: ns, v :: vs, 0, _, _, _ => by simp [List.lookup]
+  | n :: ns, v :: vs, d + 1, h1, h2, hnd => by
+    have hne : (ns[d]'(by simpa using h1) == n) = false := by
+      rw [beq_eq_false_iff_ne]
+      intro e
+      exact (List.nodup_cons.mp hnd).1 (e ▸ List.getElem_mem _)
+    simp only [List.zip_cons_cons, List.lookup, List.getElem_cons_succ, hne]
+    exact lookup_zip_nodup ns vs d (by simpa using h1) (by simpa using h2) (List.nodup_cons.mp hnd).2
+
+/-- the sub-grid's own size function -/
+abbrev subSize (sz : Nat → Nat) (sels : List (List Nat)) : Nat → Nat := s' sz (selPred sels)
+
+/-- the dimensions that remain multi-valued, fastest first -/
+def keptRate (sz : Nat → Nat) (rate : List Nat) (sels : List (List Nat)) : List Nat :=
+  rate.filter (fun d => decide (subSize sz sels d ≥ 2))
+
+theorem periodic_eq_gridRow (f : Nat → Nat) (rate : List Nat) (d : Nat) (hd : d ∈ rate) :
+    periodicRow (strideBefore f rate d) (f d) (postProd f rate d) = gridRow f rate d := by
+  unfold periodicRow gridRow gridIdx npoints
+  rw [← prod_split3 f rate d hd]
+
+/-- **The dimensions handed to the writer for a sliced side**: the multi-valued dimensions in rate order
+    (fastest first), each with its label, unit and the reference values at its selected indices; the
+    placeholder when none remains. -/
+theorem dimsForSlice_grid (sz : Nat → Nat) (rate : List Nat) (k : Nat) (V : Nat → List Int) (sels : List (List Nat))
+    (labels units : List String) (hperm : rate.Perm (List.range k)) (hk : sels.length = k) (hkpos : 0 < k)
+    (hl : labels.length = k) (hnd : labels.Nodup)
+    (hsel : ∀ d ∈ rate, 0 < subSize sz sels d) :
+    dimsForSlice ⟨labels, units, pointMatrix sz rate k, pointValues sz rate k V⟩
+        (selectedRows (pointMatrix sz rate k) sels) =
+      .ok (if (keptRate sz rate sels).isEmpty then [{ name := "arb.", units := "a. u.", values := [4] }]
+           else (keptRate sz rate sels).map (fun d =>
+             { name := labels.getD d "", units := units.getD d "", values := Wsel sz (selPred sels) V d })) := by
+  have hnd' : rate.Nodup := hperm.nodup_iff.mpr List.nodup_range
+  have huv := unit_values_sliced sz rate k V sels labels hperm hk hkpos hl hnd hsel
+  simp only at huv
+  unfold dimsForSlice
+  simp only [huv, bind, Except.bind, pure, Except.pure]
+  -- the unit values found for dimension d
+  have hlook : ∀ d, d < k → ((labels.zip ((List.range k).map (Wsel sz (selPred sels) V))).lookup (labels.getD d "")).getD [] =
+      Wsel sz (selPred sels) V d := by
+    intro d hd
+    have h1 : d < labels.length := by rw [hl]; exact hd
+    rw [List.getD_eq_getElem?_getD, List.getElem?_eq_getElem h1]
+    simp only [Option.getD_some]
+    rw [lookup_zip_nodup labels _ d h1 (by simpa using hd) hnd]
+    simp
+  have hWlen : ∀ d, (Wsel sz (selPred sels) V d).length = subSize sz sels d := by intro d; simp [Wsel, s', subSize]
+  have hkept : (List.range labels.length).filter (fun d =>
+        decide ((((labels.zip ((List.range k).map (Wsel sz (selPred sels) V))).lookup (labels.getD d "")).getD []).length ≥ 2)) =
+      (List.range k).filter (fun d => decide (subSize sz sels d ≥ 2)) := by
+    rw [hl]
+    apply List.filter_congr
+    intro d hd
+    rw [hlook d (List.mem_range.mp hd), hWlen]
+  simp only [hkept]
+  have hkperm : ((List.range k).filter (fun d => decide (subSize sz sels d ≥ 2))).Perm (keptRate sz rate sels) :=
+    hperm.symm.filter _
+  by_cases hempty : (keptRate sz rate sels).isEmpty = true
+  · have : ((List.range k).filter (fun d => decide (subSize sz sels d ≥ 2))).isEmpty = true := by
+      rw [List.isEmpty_iff] at hempty ⊢
+      rw [hempty] at hkperm; exact hkperm.eq_nil
+    simp only [this, hempty, if_true]
+  · have hne : ((List.range k).filter (fun d => decide (subSize sz sels d ≥ 2))).isEmpty = false := by
+      cases h : ((List.range k).filter (fun d => decide (subSize sz sels d ≥ 2))).isEmpty
+      · rfl
+      · rw [List.isEmpty_iff] at h
+        rw [h] at hkperm
+        have := hkperm.symm.eq_nil
+        rw [this] at hempty; simp at hempty
+    have hempty' : (keptRate sz rate sels).isEmpty = false := by simpa using hempty
+    simp only [hne, hempty', Bool.false_eq_true, if_false]
+    -- the change counts of the kept dimensions
+    have hchanges : ((List.range k).filter (fun d => decide (subSize sz sels d ≥ 2))).map (fun d =>
+          ((List.range (((pickRows (pointMatrix sz rate k) (selectedRows (pointMatrix sz rate k) sels)).map
+              (fun row => row.getD d 0)).length - 1)).filter (fun i =>
+            ((pickRows (pointMatrix sz rate k) (selectedRows (pointMatrix sz rate k) sels)).map (fun row => row.getD d 0)).getD (i + 1) 0 !=
+            ((pickRows (pointMatrix sz rate k) (selectedRows (pointMatrix sz rate k) sels)).map (fun row => row.getD d 0)).getD i 0)).length) =
+        ((List.range k).filter (fun d => decide (subSize sz sels d ≥ 2))).map
+          (fun d => noWrapCount (gridRow (subSize sz sels) rate d)) := by
+      apply List.map_congr_left
+      intro d hd
+      have hdk : d < k := List.mem_range.mp (List.mem_filter.mp hd).1
+      have hdr : d ∈ rate := hperm.symm.subset (List.mem_range.mpr hdk)
+      have hcol : (pickRows (pointMatrix sz rate k) (selectedRows (pointMatrix sz rate k) sels)).map (fun row => row.getD d 0) =
+          (gridRow (subSize sz sels) rate d).map (fun j => (L sz (selPred sels) d).getD j 0) := by
+        rw [← periodic_eq_gridRow (subSize sz sels) rate d hdr, ← sliced_index_column sz (selPred sels) rate k d hperm hdk,
+          selectedRows_eq sz rate k sels hperm hk]
+        simp [pickRows, List.map_map, Function.comp_def]
+      rw [hcol]
+      show noWrapCount ((gridRow (subSize sz sels) rate d).map _) = _
+      apply noWrap_map
+      rw [← periodic_eq_gridRow (subSize sz sels) rate d hdr]
+      exact L_strict sz _ d _ (periodicRow_lt _ _ _ (hsel d hdr))
+    rw [hchanges]
+    have hranked := ranked_eq (subSize sz sels) rate k hperm (fun e he => hsel e he)
+      (fun d => noWrapCount (gridRow (subSize sz sels) rate d))
+      (fun d hd hbig => noWrap_gridRow (subSize sz sels) rate d hnd' hd (fun e he => hsel e he) hbig)
+    rw [hranked]
+    congr 1
+    apply List.map_congr_left
+    intro d hd
+    have hdk : d < k := List.mem_range.mp (hperm.subset (List.mem_filter.mp hd).1)
+    rw [hlook d hdk]
+
 end Usid.SliceTo
